@@ -24,4 +24,5 @@ def run(ctx):
         ctx.guard("C18", "finalize-mismatch", lambda: gen.guards_finalize(ctx, prog, need=("mismatch",)))
         ctx.guard("C18", "finalize-delegate", lambda: gen.finalizers_delegate(ctx, prog))
         ctx.guard("C18", "summaries", lambda: summary.check(ctx, prog, 'generate_easy_std::|GeneratorError', floor=2))
+        ctx.guard("C18", "path summaries", lambda: summary.check_paths(ctx, prog, 'generate_easy_std::|GeneratorError', floor=1))
     return ctx.finish(EXPL, ["std::io::Read::read contract: Ok(n) implies n <= buf.len() and n bytes were written", "File::metadata().len() is the size the property calls 'reported by its metadata'"])
